@@ -1390,3 +1390,19 @@ package yqlib
 //@   loop 1:
 //@     invariant 0 <= i && i % 2 == 0 && i <= len(node.Content)
 //@     invariant @none-so-far forall(j, 0, i, !xmlBadAttr(e, node, j))
+
+// ---------------------------------------------------------------------------------------------
+// operator_booleans.go: any / all / any_c / all_c (C01)
+
+//@ func findBoolean
+//@   props C01 C08 C11
+//@   requires d != nil && sequenceNode != nil
+//@   assume @children-non-nil forall(i, 0, len(sequenceNode.Content), sequenceNode.Content[i] != nil)
+//@   modifies lastEvalOut, prevEvalOut
+//@   at GetMatchingNodes: assert @condition-on-one-element-read-only {C01,C08} len(arg1.MatchingNodes) == 1 && nodeAt(arg1.MatchingNodes, 0) == sequenceNode.Content[rangeidx()] && arg1.DontAutoCreate && arg2 == expressionNode
+//@   ensures @without-a-condition-it-is-exists {C01} implies(expressionNode == nil, result1 == nil && result0 == exists(i, 0, len(sequenceNode.Content), truthyNode(sequenceNode.Content[i]) == wantBool))
+//@   ensures @a-no-has-asked-every-element {C01} implies(expressionNode != nil && result1 == nil && !result0, calls(GetMatchingNodes) == len(sequenceNode.Content))
+//@   loop 1:
+//@     invariant @asked-so-far {C01} implies(expressionNode != nil, calls(GetMatchingNodes) == rangeidx())
+//@     invariant @none-so-far {C01} implies(expressionNode == nil, forall(i, 0, rangeidx(), truthyNode(sequenceNode.Content[i]) != wantBool))
+//@     invariant sequenceNode.Content == old(sequenceNode.Content) && forall(i, 0, len(sequenceNode.Content), sequenceNode.Content[i] != nil)
